@@ -209,6 +209,12 @@ def _fresh_sources(u, known=()):
                 elif e.get('k') == 'ref' and e.get('dk') == 'param':
                     ok = False      # a parameter carries the caller's value on some paths
                 elif e.get('k') == 'ref':
+                    # a node that was handed to a container on the way (cJSON_AddNullToObject: created, added to the object, and
+                    # returned for convenience) belongs to the container, not to the caller
+                    from .own import CONSUME_ON_SUCCESS
+                    if any(callee_name(c_) in CONSUME_ON_SUCCESS and CONSUME_ON_SUCCESS[callee_name(c_)]['takes'] < len(c_['args']) and
+                           strip_casts(c_['args'][CONSUME_ON_SUCCESS[callee_name(c_)]['takes']]).get('d') == e['d'] for c_ in fn.calls()):
+                        ok = False
                     # local that is only assigned from fresh sources
                     defs = [a['r'] for a in assignments(fn) if is_ref(a['l']) and strip_casts(a['l'])['d'] == e['d']]
                     defs += [d['init'] for d in fn.locals() if d['d'] == e['d'] and 'init' in d]
